@@ -294,10 +294,36 @@ impl CallCase {
 }
 
 // ------------------------------------------------------------------ scripted streams
-pub struct ReqStream(VecDeque<Item>);
+// STRICT streams: once they have answered Ready(None) they must not be polled again (a legal
+// stream may panic then or produce further items).  Polls after the end are counted and answered
+// with a poison message or, in panic mode (in-process kinds), with a panic.
+pub static POLLED_AFTER_END: std::sync::atomic::AtomicUsize = std::sync::atomic::AtomicUsize::new(0);
+pub static STRICT_PANICS: std::sync::atomic::AtomicBool = std::sync::atomic::AtomicBool::new(false);
+const POISON: &[u8] = b"POISON: stream polled after its end";
+/// None = stop feeding poison (the run must end so that the verdict can be written)
+fn after_end() -> Option<Vec<u8>> {
+    let n = POLLED_AFTER_END.fetch_add(1, std::sync::atomic::Ordering::SeqCst);
+    if STRICT_PANICS.load(std::sync::atomic::Ordering::SeqCst) {
+        panic!("a message stream was polled again after it had returned None");
+    }
+    if n >= 8 {
+        None
+    } else {
+        Some(POISON.to_vec())
+    }
+}
+pub struct ReqStream(VecDeque<Item>, bool);
+impl ReqStream {
+    pub fn new(items: &[Item]) -> ReqStream {
+        ReqStream(items.iter().cloned().collect(), false)
+    }
+}
 impl Stream for ReqStream {
     type Item = Vec<u8>;
     fn poll_next(mut self: Pin<&mut Self>, cx: &mut Context<'_>) -> Poll<Option<Vec<u8>>> {
+        if self.1 {
+            return Poll::Ready(after_end());
+        }
         loop {
             match self.0.pop_front() {
                 Some(Item::Pending) => {
@@ -306,15 +332,26 @@ impl Stream for ReqStream {
                 }
                 Some(Item::Ok(m)) => return Poll::Ready(Some(m)),
                 Some(Item::Err(_)) => continue,
-                None => return Poll::Ready(None),
+                None => {
+                    self.1 = true;
+                    return Poll::Ready(None);
+                }
             }
         }
     }
 }
-pub struct RespStream(VecDeque<Item>);
+pub struct RespStream(VecDeque<Item>, bool);
+impl RespStream {
+    pub fn new(items: &[Item]) -> RespStream {
+        RespStream(items.iter().cloned().collect(), false)
+    }
+}
 impl Stream for RespStream {
     type Item = Result<Vec<u8>, Status>;
     fn poll_next(mut self: Pin<&mut Self>, cx: &mut Context<'_>) -> Poll<Option<Self::Item>> {
+        if self.1 {
+            return Poll::Ready(after_end().map(Ok));
+        }
         match self.0.pop_front() {
             Some(Item::Pending) => {
                 cx.waker().wake_by_ref();
@@ -322,7 +359,10 @@ impl Stream for RespStream {
             }
             Some(Item::Ok(m)) => Poll::Ready(Some(Ok(m))),
             Some(Item::Err(s)) => Poll::Ready(Some(Err(s.status()))),
-            None => Poll::Ready(None),
+            None => {
+                self.1 = true;
+                Poll::Ready(None)
+            }
         }
     }
 }
@@ -407,7 +447,7 @@ fn stream_answer(h: &Handler) -> Result<Response<RespStream>, Status> {
     match h {
         Handler::Err(s) => Err(s.status()),
         Handler::Ok(md, items) => {
-            let mut r = Response::new(RespStream(items.iter().cloned().collect()));
+            let mut r = Response::new(RespStream::new(items));
             *r.metadata_mut() = metadata_of(md);
             Ok(r)
         }
@@ -708,7 +748,7 @@ where
             }
         }
         1 => {
-            let mut rq = Request::new(ReqStream(c.req.iter().cloned().collect()));
+            let mut rq = Request::new(ReqStream::new(&c.req));
             *rq.metadata_mut() = md;
             match client.client_streaming(rq, path, RawCodec).await {
                 Err(s) => ClientResult::Err(s),
@@ -731,7 +771,7 @@ where
             }
         }
         _ => {
-            let mut rq = Request::new(ReqStream(c.req.iter().cloned().collect()));
+            let mut rq = Request::new(ReqStream::new(&c.req));
             *rq.metadata_mut() = md;
             match client.streaming(rq, path, RawCodec).await {
                 Err(s) => ClientResult::Err(s),
@@ -1029,6 +1069,8 @@ fn run_case(out: &mut Out, kind: &str, c: &CallCase) {
     let resp_status = Arc::new(Mutex::new(None));
     let sizes = Arc::new(Mutex::new((0usize, 0usize)));
     let wire = Wire { case: Arc::new(c.clone()), h, resp_status: resp_status.clone(), sizes: sizes.clone() };
+    POLLED_AFTER_END.store(0, std::sync::atomic::Ordering::SeqCst);
+    STRICT_PANICS.store((c.req.len() + c.qcuts.len() + c.pcuts.len() + c.shape as usize) % 2 == 1, std::sync::atomic::Ordering::SeqCst);
     let budget = 200 + 8 * (c.req.len() + c.qcuts.len() + c.pcuts.len() + c.qpend.iter().sum::<usize>() + c.ppend.iter().sum::<usize>() + match &c.handler { Handler::Ok(_, i) => i.len(), _ => 0 });
     let res = catch(std::panic::AssertUnwindSafe(|| spin(client_side(c, wire), budget)));
     let seen = seen.lock().unwrap().clone();
@@ -1041,12 +1083,15 @@ fn run_case(out: &mut Out, kind: &str, c: &CallCase) {
         Ok(Err(())) => (Tr::L(vec![Tr::L(vec![Tr::n(8u8)]), Tr::L(vec![Tr::n(8u8)])]), Some("the call did not complete (hang)".into())),
         Ok(Ok(r)) => {
             let o = if domain { judge(c, &r, &seen) } else { None };
+            let n = POLLED_AFTER_END.load(std::sync::atomic::Ordering::SeqCst);
+            let o = if o.is_none() && n > 0 { Some(format!("a message stream (caller's request stream or handler's response stream) was polled {} time(s) after it had returned None", n)) } else { o };
             (Tr::L(vec![result_tr(&r), seen_tr(&seen, *resp_status.lock().unwrap())]), o)
         }
     };
     let fam = kind.split('.').next().unwrap_or("call");
     describe(out, fam, c);
     out.hist(&format!("{}.in_oracle_domain", fam), domain);
+    out.hist(&format!("{}.strict_stream_mode", fam), if STRICT_PANICS.load(std::sync::atomic::Ordering::SeqCst) { "panic after end" } else { "poison after end" });
     out.hist(&format!("{}.sides", fam), format!("{}{}", if c.cl.is_plain() && c.sv.is_plain() { "no compression" } else { "compression" }, if c.cl.has_limits() || c.sv.has_limits() { ", limits set" } else { "" }));
     out.hist(&format!("{}.handler_reads", fam), match c.reads { None => "to the end".to_string(), Some(j) => format!("{} then answers", j.min(5)) });
     out.hist(&format!("{}.request_chunks", fam), bucket(cut_chunks(&c.qcuts, &vec![0u8; qn]).len()));
@@ -1318,6 +1363,21 @@ fn limit_cases(out: &mut Out, r: &mut Rng, thorough: bool) {
                         let c = gen_limit_case(r, shape, which, l, len, pos);
                         run_case(out, limit_kind(which, shape), &c);
                     }
+                }
+            }
+        }
+    }
+    // limits that do not fit a u32 (a limit stored in 32 bits wraps: 2^32 -> 0, 2^32+16 -> 16):
+    // small messages around the wrapped values must all pass
+    for which in 0..4u8 {
+        for &l in &[u32::MAX as usize, 1usize << 32, (1 << 32) + 16, (1 << 33) + 5, 1 << 63, usize::MAX - 1, usize::MAX] {
+            for &len in &[1usize, 17] {
+                for shape in 0..4u8 {
+                    if !thorough && (shape + which) % 2 == 1 {
+                        continue;
+                    }
+                    let c = gen_limit_case(r, shape, which, l, len, 1);
+                    run_case(out, &format!("{}_big", limit_kind(which, shape)).replace("client_max_encoding_big", "big.client_max_enc"), &c);
                 }
             }
         }
